@@ -94,6 +94,7 @@ type GenResult struct {
 	Status   string     `json:"status"`
 	Detail   string     `json:"detail"`
 	Registry []RegEntry `json:"registry"`
+	Initial  []RegEntry `json:"initial"` // the registry's native content, before the manifests were registered
 	Stderr   string
 }
 
